@@ -24,7 +24,16 @@
                     140 000 additions of such a process: only a sample of the histories is recorded and validated, the history
                     BEFORE a recorded addition is not in the trace (it is in the replay file: session.spec / pass / index) - the
                     statement is about every single addition, so each recorded one is judged on its own.
-   The fields `reuse` / `session` are not read here.
+     reads          mode "add": the caller LOOKS at the network between two additions (and after the last one).  Optional field
+                    reads[j] = the queries made after the j-th addition, in order: [op |-> name, outcome |-> "ok"|"exception:..",
+                    net |-> the network object the caller holds, projected AFTER the call].  op is one of get_pivot, best_cn_path,
+                    sorted_cn_paths (on the still unnormalised network), normalize_copy / paths_of_normalized_copy / add_on_copy
+                    (normalize_cn, sorted_cn_paths(normalize_cn(.)), add_hypothese applied to a deep copy).  Each is matched by
+                    TRead = ConfusionNet!Read (a query changes nothing) /\ the recorded network IS the network of the last
+                    addition: same positions, same arcs, same weights.  The next addition is then judged by the ordinary step
+                    clause against that network (TAdd waits until every recorded query of the step is matched), the final
+                    clauses are evaluated on the network as it is after the last query.
+   The fields `reuse` / `session` / `reads_plan` are not read here.
 
    Weights are kept in thousandths (a changed implementation that produces fractional weights is a mismatch,
    not a parse error); every operator of the design module is linear in the weights.
@@ -37,7 +46,8 @@
 EXTENDS ConfusionNet, TraceKit
 CONSTANT KnownEmptyFirst    \* TRUE: the open known finding is modelled as a named deviation (TAddAfterEmpty), so that the REST of
                             \* such a history (later additions, normalisation, paths) is still checked
-VARIABLES tid, drift
+VARIABLES tid, drift,
+          rd                \* number of recorded queries (reads) matched so far, over the whole trace
 
 Tr == Traces[tid]
 NAdds == Len(Tr.hyps)
@@ -57,11 +67,17 @@ WellFormed(n) == \A k \in 1..Len(n) : /\ Len(n[k]) > 0
 
 TInit == /\ tid \in 1..NTraces
          /\ cn = <<>> /\ adds = 0 /\ total = 0 /\ lastH = <<>> /\ lastW = 0 /\ phase = "open" /\ paths = <<>>
-         /\ drift = FALSE
+         /\ drift = FALSE /\ rd = 0
+
+\* ---------------------------------------------------------------- queries between the additions (optional field `reads`)
+ReadsAfter(j) == IF "reads" \in DOMAIN Tr /\ j >= 1 /\ j <= Len(Tr.reads) THEN Tr.reads[j] ELSE <<>>
+RECURSIVE ReadsUpTo(_)
+ReadsUpTo(j) == IF j <= 0 THEN 0 ELSE Len(ReadsAfter(j)) + ReadsUpTo(j - 1)
+ReadsPending == rd < ReadsUpTo(adds)
 
 \* ---------------------------------------------------------------- one addition
 TAdd ==
-    /\ phase = "open" /\ adds < NAdds
+    /\ phase = "open" /\ adds < NAdds /\ ~ReadsPending
     /\ LET j == adds + 1
            h == HypOf(j)
            w == ScoreM(j)
@@ -73,12 +89,22 @@ TAdd ==
                 /\ drift' = (drift \/ (Len(h) <= 3 /\ nxt \notin AddResults(cn, h, w)))
                 /\ cn' = nxt
           /\ adds' = j /\ total' = total + w /\ lastH' = h /\ lastW' = w
-    /\ UNCHANGED <<phase, paths>>
+    /\ UNCHANGED <<phase, paths, rd>>
+
+\* a query: the design step Read (nothing changes) and the network the caller holds afterwards is the network of the last addition
+TRead ==
+    /\ ReadsPending
+    /\ Read
+    /\ LET r == ReadsAfter(adds)[rd - ReadsUpTo(adds - 1) + 1]
+       IN /\ r.outcome = "ok"
+          /\ WellFormed(r.net)
+          /\ NetOf(r.net) = cn
+    /\ rd' = rd + 1 /\ UNCHANGED drift
 
 \* the known deviation (add:first-hypothesis-empty): every hypothesis so far was '' and left no trace, the network is still empty;
 \* add_hypothese then starts afresh from this hypothesis - the weight of the dropped ones is gone (total restarts)
 TAddAfterEmpty ==
-    /\ KnownEmptyFirst /\ phase = "open" /\ adds < NAdds /\ adds >= 1 /\ cn = <<>>
+    /\ KnownEmptyFirst /\ phase = "open" /\ adds < NAdds /\ adds >= 1 /\ cn = <<>> /\ ~ReadsPending
     /\ LET j == adds + 1
            h == HypOf(j)
            w == ScoreM(j)
@@ -87,7 +113,7 @@ TAddAfterEmpty ==
           /\ NetOf(Tr.nets[j]) = [k \in 1..Len(h) |-> (h[k] :> w)]
           /\ cn' = NetOf(Tr.nets[j])
           /\ adds' = j /\ total' = (IF h = <<>> THEN 0 ELSE w) /\ lastH' = h /\ lastW' = w
-    /\ UNCHANGED <<phase, paths, drift>>
+    /\ UNCHANGED <<phase, paths, drift, rd>>
 \* ---------------------------------------------------------------- normalisation
 Abs(x) == IF x < 0 THEN -x ELSE x
 NormOK ==
@@ -130,16 +156,17 @@ SingleOK ==
 BestOK == Tr.fin.best \in {PathStr(p) : p \in Pivots(cn)}
 
 TFinish ==
-    /\ adds = NAdds /\ UNCHANGED <<cn, adds, total, lastH, lastW, paths>>
+    /\ adds = NAdds /\ ~ReadsPending /\ UNCHANGED <<cn, adds, total, lastH, lastW, paths, rd>>
     /\ \/ phase = "open" /\ NormOK /\ phase' = "norm" /\ UNCHANGED drift
        \/ phase = "norm" /\ PathsOK /\ phase' = "paths" /\ drift' = (drift \/ ~BestOK)
        \/ phase = "paths" /\ SingleOK /\ phase' = "done" /\ UNCHANGED drift
 
-TNext == UNCHANGED tid /\ (TAdd \/ TAddAfterEmpty \/ TFinish)
+TNext == UNCHANGED tid /\ (TAdd \/ TAddAfterEmpty \/ TRead \/ TFinish)
 
 PhaseNo == CASE phase = "open" -> 0 [] phase = "norm" -> 1 [] phase = "paths" -> 2 [] OTHER -> 3
-\* progress: 10 * accepted additions + finished final stages; 1000 = property satisfied, detailed model left (drift)
-TAccept == TKMark(tid, IF phase = "done" THEN 1000 ELSE 10 * adds + PhaseNo, phase = "done" /\ ~drift)
+\* progress: 10000 * matched queries + (10 * accepted additions + finished final stages; 1000 = property satisfied, detailed model
+\* left (drift)) - both parts only grow along a trace; without the field `reads` the first part is 0
+TAccept == TKMark(tid, 10000 * rd + (IF phase = "done" THEN 1000 ELSE 10 * adds + PhaseNo), phase = "done" /\ ~drift)
 TPost == TKPost
 ASSUME TKReset
 =============================================================================
